@@ -235,6 +235,9 @@ func cmdCheck(args []string) int {
 			if len(o.Tags) == 0 {
 				o.Tags = r.Tags
 			}
+			if sp := shortPkg(r.Key); sp != "" && !strings.HasPrefix(o.Name, sp+":") {
+				o.Name = sp + ":" + o.Name
+			}
 			if !hasTag(o.Tags, *prop) {
 				continue
 			}
@@ -526,4 +529,25 @@ func cmdDump(args []string) int {
 		fmt.Println("warn:", w)
 	}
 	return 0
+}
+
+// shortPkg: last path element of the package part of a function key (disambiguates equal function names
+// of different packages in obligation names, e.g. the (*plugin).CreateContainer of three plugins).
+func shortPkg(key string) string {
+	i := strings.Index(key, ".(")
+	if i < 0 {
+		i = strings.LastIndex(key, ".")
+		// plain functions: pkgpath.Func ; lemmas: pkgpath.lemma:Name
+		if j := strings.Index(key, ".lemma:"); j >= 0 {
+			i = j
+		}
+	}
+	if i < 0 {
+		return ""
+	}
+	p := key[:i]
+	if j := strings.LastIndex(p, "/"); j >= 0 {
+		p = p[j+1:]
+	}
+	return p
 }
